@@ -458,3 +458,19 @@ def run_corpus(prop, check_case, opts, res):
             res.violations.append((v.what + " (regression case)", p))
         except Inconclusive:
             res.inconclusive += 1
+
+
+def replay_case(prop, check_case, path, opts=None):
+    """Re-run one saved case without the generator library (bin/check <ID> --replay PATH)."""
+    d = load_replay(path)
+    res = Result(prop)
+    try:
+        check_case(d["case"], dict(opts or {}, prop=prop))
+    except Violation as v:
+        if v.sig and v.sig in known_active(prop):
+            print("KNOWN-FINDING: property=%s %s [%s]" % (prop, known_active(prop)[v.sig].get("what", "")[:200], v.sig))
+        else:
+            res.violations.append((v.what, path))
+    except Inconclusive as e:
+        print("inconclusive: %s" % e)
+    return res
